@@ -39,6 +39,13 @@ Round 4:
 * an override that delegates (`Base.m(self, ..)`, `super().m(..)`) has the effects of the base method it runs
   (e.g. HourlyContinuousCollection.convert_to_culled_timestep: check divisibility, then the base cull); a
   base call that cannot be resolved raises ExtractError.
+
+Round 5:
+* per setter / public mutating method `reads`: every attribute its code loads (tests, validation, a conditional
+  store, the container it stores into), emitted into the table; `ClassTable.setterFrame` (decided in Lean for the
+  classes whose setters are independent settings) demands that it is an attribute the setter assigns itself or
+  one that no setter assigns.  A cross-field check in a setter (skip / clamp a minimum against the current
+  maximum) makes setter calls non-commutative and falsifies it.
 """
 import ast
 import hashlib
@@ -783,8 +790,9 @@ def to_lean(tabs):
             gl.append('    { name := %s, sites := [%s],\n      direct := %s, clears := %s, refines := %s }'
                       % (lean_str(gname), ',\n        '.join(sl), _ids(t, g['direct']), _ids(t, g['clears']), rf))
         out.append('  getters := [\n%s]' % ',\n'.join(gl))
-        sl = ['    { name := %s, writes := %s, clears := %s, early := %s }'
-              % (lean_str(sname), _ids(t, s['writes']), _ids(t, s['clears']), _ids(t, s['early']))
+        sl = ['    { name := %s, writes := %s, clears := %s, early := %s, reads := %s }'
+              % (lean_str(sname), _ids(t, s['writes']), _ids(t, s['clears']), _ids(t, s['early']),
+                 _ids(t, s['reads']))
               for sname, s in sorted(t['setters'].items())]
         out.append('  setters := [\n%s]' % ',\n'.join(sl))
         out.append('')
